@@ -293,7 +293,7 @@ func init() {
 			"native replays: real note.Message documents, real ES256 keys and signatures"},
 		Bounds: map[string][]string{
 			"quick":    {"histories of 3 operations drawn from {calculate, edit document, sign key 0, sign key 1, unsign, stamp pa (symbolic value, overwrites), stamp pb, validate, verify} from a calculated or uncalculated start, followed by a final validate and verify; content tokens symbolic in 0..2"},
-			"thorough": {"histories of 4 operations"},
+			"thorough": {"histories of 5 operations"},
 		},
 		Outside:     []string{"histories longer than the bound (no inductive argument is made)", "links, tags, meta and notes in the header (their containment is decided in C09)", "parsing an envelope from JSON (signature list with empty entries: see C14 for the panic side)", "insert of arbitrary documents, the code-required-when-signed rule of invoices (represented only by the valid-once-signed flag)"},
 		Assumptions: []string{"JWS contract; injectivity of marshal / c14n / sha256"},
